@@ -12,6 +12,13 @@ Monitors:
              appearing.  A namespace that was in the file stays in the model when it loses its
              last entry, so a store without namespace keeps resolving as before; a file that
              drops the emptied namespace is tolerated only as long as no store's view differs
+  paths      the same monitor over file-system layouts in which ONE real file is reached through several
+             paths (a symbolic link to the file in the same / another directory, with an absolute / relative
+             target, a chain of two links, a dangling link, a symbolic link to a directory on the way, with
+             '..' behind it, a relative name given before the working directory changed); 2-3 named
+             namespaces, each worked on through its own path; after every operation the REAL file holds the
+             model, every link is still the same link, every live and fresh store through every path shows
+             the model; two in five operations 'die' right before / after the rename
   roundtrip  every present/absent combination of the six keys x address types x link-key
              types, sub-fields (authenticated, ediv, rand) rotated through all 8 settings;
              checked through a fresh store, through the raw file layout, and from files
@@ -45,7 +52,10 @@ RULE = ('history: seeded random operation sequences over 2-4 peers x 1-3 named n
         'distinct = distinct operation sequence. nscount: the same over directed files (which of two named namespaces, '
         '__DEFAULT__ and a foreign one exist, with 0-2 entries each) with 1-2 peers, one live store of every kind (named A, '
         'named B, without namespace) opened before the first step, delete-heavy operation mix, so that namespaces lose their '
-        'last entry and new ones appear every few steps. roundtrip: distinct = (present keys, address '
+        'last entry and new ones appear every few steps. paths: nine file-system layouts (file symlink same dir / other dir with '
+        'absolute or relative target / chain / dangling, directory symlink, directory symlink + "..", relative name with the '
+        'working directory changed afterwards, relative name of a symlink) x 2-3 named namespaces each through its own path x '
+        '5-12 operations, 40% of them dying at the rename; distinct = (layout, operation sequence). roundtrip: distinct = (present keys, address '
         'type, link-key type, sub-field setting). crash: one (initial database, store kind, '
         'operation) configuration; every crash point until the operation completes without the '
         'failpoint firing; distinct = (configuration, mode, n); non-trivial when the failpoint '
@@ -75,7 +85,10 @@ MIN_EVENTS = {
               'ns_emptied_by_delete_all': 100, 'ns_emptied_where_dropping_would_redirect_default': 120,
               'ns_appeared': 300, 'ns_appeared_redirecting_default': 100,
               'default_store_views_after_namespace_count_event': 1500,
-              'live_default_store_views_after_namespace_count_event': 400},
+              'live_default_store_views_after_namespace_count_event': 400,
+              'paths_histories': 280, 'paths_ops': 1500, 'paths_ops_through_symlink': 600,
+              'paths_ops_relative_name_after_chdir': 200, 'paths_deaths': 500, 'paths_symlink_checks': 1500,
+              'paths_views_not_through_the_real_path': 7000},
     'thorough': {'oracle_evals': 1500000, 'history_ops': 40000, 'fresh_store_views': 120000, 'roundtrips': 4032,
                  'crash_points_line': 1100, 'crash_points_write': 4000, 'crash_points_fs': 480,
                  'crash_fired': 5500, 'crash_points_update': 3500, 'crash_points_delete': 800,
@@ -85,7 +98,10 @@ MIN_EVENTS = {
                  'ns_emptied_by_delete_all': 1000, 'ns_emptied_where_dropping_would_redirect_default': 1200,
                  'ns_appeared': 3000, 'ns_appeared_redirecting_default': 1000,
                  'default_store_views_after_namespace_count_event': 15000,
-                 'live_default_store_views_after_namespace_count_event': 4000},
+                 'live_default_store_views_after_namespace_count_event': 4000,
+                 'paths_histories': 3400, 'paths_ops': 18000, 'paths_ops_through_symlink': 7000,
+                 'paths_ops_relative_name_after_chdir': 2400, 'paths_deaths': 6000, 'paths_symlink_checks': 18000,
+                 'paths_views_not_through_the_real_path': 84000},
 }
 CASE_TIMEOUT = 3600          # a loaded machine stretches fork latency a hundredfold; expiry = inconclusive
 SHARD_TIMEOUT = {'quick': 1800, 'thorough': 14400}
@@ -517,6 +533,266 @@ async def history(rng: random.Random, r, weird_ok=True, profile='random'):
         return {'layout': layout, 'ns_args': ns_args, 'peers': allpeers, 'ops': [list(map(str, o)) for o in ops[:12]],
                 'final_db_namespaces': {ns: len(p) for ns, p in model.db.items()}}
     finally:
+        shutil.rmtree(base, ignore_errors=True)
+
+
+# =============================================================================
+# paths: one real file reached through several file-system paths
+# =============================================================================
+PATH_LAYOUTS = ('symlink-same-dir', 'symlink-other-dir-absolute-target', 'symlink-other-dir-relative-target', 'symlink-chain',
+                'symlink-dangling', 'directory-symlink', 'directory-symlink-dotdot', 'relative-path-cwd-changed',
+                'relative-path-through-symlink-cwd-changed')
+
+
+class _Die(BaseException):
+    """the process 'dies' at a file-system step (raised out of the patched os.replace)"""
+
+
+def build_path_layout(base, layout):
+    """-> (real path, [(label, filename given to JsonKeyStore, cwd at the time the store is opened or None)], symlinks
+    {path: target}, whether the real file exists at the start).  The real path is always the first access path."""
+    real_base = os.path.realpath(base)
+    mk = lambda *p: os.makedirs(os.path.join(real_base, *p), exist_ok=True)  # noqa
+    j = lambda *p: os.path.join(real_base, *p)  # noqa
+    links = {}
+
+    def ln(target, at):
+        os.symlink(target, at)
+        links[at] = target
+
+    mk('a'), mk('b'), mk('elsewhere')
+    real = j('a', 'real.json')
+    acc = [('real-path', real, None)]
+    exists = True
+    if layout == 'symlink-same-dir':
+        ln('real.json', j('a', 'link.json'))
+        acc.append(('file-symlink', j('a', 'link.json'), None))
+    elif layout == 'symlink-other-dir-absolute-target':
+        ln(real, j('b', 'link.json'))
+        acc.append(('file-symlink', j('b', 'link.json'), None))
+    elif layout == 'symlink-other-dir-relative-target':
+        ln(os.path.join('..', 'a', 'real.json'), j('b', 'link.json'))
+        acc.append(('file-symlink', j('b', 'link.json'), None))
+    elif layout == 'symlink-chain':
+        ln(os.path.join('..', 'a', 'real.json'), j('b', 'link1.json'))
+        ln(j('b', 'link1.json'), j('elsewhere', 'link2.json'))
+        acc.append(('file-symlink', j('b', 'link1.json'), None))
+        acc.append(('file-symlink-to-symlink', j('elsewhere', 'link2.json'), None))
+    elif layout == 'symlink-dangling':
+        exists = False
+        ln(real, j('b', 'link.json'))
+        acc.append(('file-symlink', j('b', 'link.json'), None))
+    elif layout == 'directory-symlink':
+        ln(j('a'), j('b', 'dirlink'))
+        acc.append(('directory-symlink', j('b', 'dirlink', 'real.json'), None))
+    elif layout == 'directory-symlink-dotdot':
+        mk('a', 'deep')
+        ln(j('a', 'deep'), j('b', 'dirlink'))
+        acc.append(('directory-symlink-dotdot', j('b', 'dirlink', '..', 'real.json'), None))
+    elif layout == 'relative-path-cwd-changed':
+        acc.append(('relative-path', 'real.json', j('a')))
+        acc.append(('relative-path-dotdot', os.path.join('..', 'a', 'real.json'), j('b')))
+    elif layout == 'relative-path-through-symlink-cwd-changed':
+        ln(os.path.join('..', 'a', 'real.json'), j('b', 'link.json'))
+        acc.append(('relative-path-to-file-symlink', 'link.json', j('b')))
+        acc.append(('relative-path', os.path.join('a', 'real.json'), real_base))
+    else:
+        raise ValueError(layout)
+    return real, acc, links, exists
+
+
+async def paths_history(rng: random.Random, r, layout):
+    """2-3 named namespaces in ONE real file; every store reaches it through its own path (the real path, a symbolic
+    link to the file, a symbolic link to a directory on the way, a relative name given before the working directory
+    changed).  After every operation: the REAL file holds the model, every symbolic link is still the same link, every
+    live and every fresh store through every path shows the model; some operations 'die' right before / after the
+    rename and the same is demanded with the previous / the new state."""
+    from bumble.keys import JsonKeyStore
+
+    base = tempfile.mkdtemp(prefix='c15p-')
+    cwd0 = os.getcwd()
+    try:
+        real, acc, links, exists = build_path_layout(base, layout)
+        later_cwd = os.path.join(os.path.realpath(base), 'elsewhere')
+        namespaces = rng.sample(NAMESPACES, rng.choice([2, 3]))
+        peers = rng.sample(PEERS, rng.randint(2, 3))
+        model = ref.Model()
+        if exists:
+            pre = rng.choice(['absent', 'emptyobj', 'prefilled', 'prefilled'])
+            if pre == 'emptyobj':
+                with open(real, 'w') as f:
+                    f.write('{}')
+            elif pre == 'prefilled':
+                model = ref.Model(rand_db(rng, rng.sample(namespaces + ['foreign:ns'], rng.randint(1, len(namespaces) + 1)), peers, []))
+                with open(real, 'w', encoding='utf-8') as f:
+                    json.dump(ref.encode_db(model.db), f, indent=rng.choice([None, 2]))
+        else:
+            pre = 'absent'
+        listing0 = {d: sorted(os.listdir(d)) for d in {os.path.dirname(real)} | {os.path.dirname(p) for p in links}}
+
+        def open_store(ns, a):
+            label, filename, cwd = a
+            if cwd is None:
+                return JsonKeyStore(ns, filename)
+            os.chdir(cwd)
+            try:
+                return JsonKeyStore(ns, filename)
+            finally:
+                os.chdir(later_cwd)
+
+        os.chdir(later_cwd)
+        # namespace k is worked on through access path k (round robin): different namespaces through different paths
+        live = []
+        for k, ns in enumerate(namespaces):
+            a = acc[(k + rng.randrange(len(acc))) % len(acc)] if k else acc[-1]
+            live.append([open_store(ns, a), ns, a])
+        if all(a[0] == live[0][2][0] for _s, _n, a in live):
+            live[-1][2] = acc[0]
+            live[-1][0] = open_store(live[-1][1], acc[0])
+        ops = []
+        r.ev('paths_histories')
+        r.ev('paths_layout_' + layout)
+
+        def ctx():
+            return (f'layout={layout} real={os.path.relpath(real, base)} links={ {os.path.relpath(k, base): v for k, v in links.items()} } '
+                    f'stores={[(n, a[0], a[1] if a[2] else os.path.relpath(a[1], base), a[2] and os.path.relpath(a[2], base)) for _s, n, a in live]} '
+                    f'initial={pre} ops={ops[-10:]} model={show_db(model.db)}')
+
+        async def verify(opname, via):
+            # 1. the real file
+            status, raw = read_raw(real)
+            r.ev('oracle_evals')
+            r.ev('paths_real_file_checks')
+            want = ref.strip_empty(model.db)
+            if status == 'absent' and not want and not exists_now[0]:
+                pass
+            elif status != 'ok':
+                r.bad(f'paths/real-file-{status}/{opname}/{layout}/via-{via}', f'real file after {opname}: {status} {raw}; {ctx()}')
+                return False
+            elif ref.strip_empty(raw) != want:
+                r.bad(f'paths/real-file-not-the-one-updated/{opname}/{layout}/via-{via}',
+                      f'real file after {opname} = {show_db(raw)}; {ctx()}')
+                return False
+            else:
+                exists_now[0] = True
+            # 2. the links are still the links
+            for lp, target in links.items():
+                r.ev('oracle_evals')
+                r.ev('paths_symlink_checks')
+                if not os.path.islink(lp) or os.readlink(lp) != target:
+                    what = 'gone' if not os.path.lexists(lp) else 'a regular file' if not os.path.islink(lp) else f'a link to {os.readlink(lp)}'
+                    r.bad(f'paths/symlink-replaced/{opname}/{layout}/via-{via}',
+                          f'{os.path.relpath(lp, base)} was a symbolic link to {target}, after {opname} it is {what}; {ctx()}')
+                    return False
+            # 3. no other file appeared or vanished (a left-over *.tmp after a death is allowed)
+            for d, names in listing0.items():
+                now = sorted(n for n in os.listdir(d) if not n.endswith('.tmp'))
+                r.ev('oracle_evals')
+                if [n for n in now if n != os.path.basename(real) or d != os.path.dirname(real)] != \
+                        [n for n in names if n != os.path.basename(real) or d != os.path.dirname(real)]:
+                    r.bad(f'paths/directory-entries-changed/{opname}/{layout}/via-{via}',
+                          f'{os.path.relpath(d, base)} held {names}, after {opname} {now}; {ctx()}')
+                    return False
+            # 4. every view through every path
+            for who, store, ns, a in ([('live', s, n, a) for s, n, a in live] +
+                                      [('fresh', None, n, a) for n in namespaces for a in acc]):
+                if who == 'fresh':
+                    store = open_store(ns, a)
+                    r.ev('fresh_store_views')
+                r.ev('paths_views')
+                if a[0] != 'real-path':
+                    r.ev('paths_views_not_through_the_real_path')
+
+                def keyfn(clause, who=who, a=a):
+                    return f'paths/view/{clause}/{who}-store/{layout}/seen-via-{a[0]}/written-via-{via}'
+                if not await compare_views(store, ns, model, r, peers, keyfn,
+                                           lambda: f'after {opname}; viewing {ns!r} through {a[0]}; ' + ctx()):
+                    return False
+            return True
+
+        exists_now = [exists and pre != 'absent']
+        if not await verify('open', 'nothing'):
+            return None
+        for _step in range(rng.randint(5, 12)):
+            k = rng.randrange(len(live))
+            store, ns, a = live[k]
+            op = rng.choices(['update', 'delete', 'delete_all', 'reopen'], [7, 2.5, 0.6, 1.5])[0]
+            if op == 'reopen':
+                a = rng.choice(acc)
+                live[k] = [open_store(ns, a), ns, a]
+                ops.append(('reopen', ns, a[0]))
+                continue
+            if op == 'delete' and not model.view(ns):
+                op = 'update'
+            die = rng.choice([None, None, None, 'before-rename', 'after-rename'])
+            r.ev('paths_ops')
+            r.ev('history_ops')
+            if a[0] != 'real-path':
+                r.ev('paths_ops_not_through_the_real_path')
+            if 'symlink' in a[0]:
+                r.ev('paths_ops_through_symlink')
+            if a[2]:
+                r.ev('paths_ops_relative_name_after_chdir')
+            after = model.copy()
+            if op == 'update':
+                peer = rng.choice(peers)
+                fields = rand_fields(rng)
+                ops.append(('update', ns, a[0], peer, sorted(fields), die))
+                after.update(ns, peer, fields)
+                call = lambda: store.update(peer, make_keys(fields))  # noqa
+            elif op == 'delete':
+                peer = rng.choice(list(model.view(ns)))
+                ops.append(('delete', ns, a[0], peer, die))
+                after.delete(ns, peer)
+                call = lambda: store.delete(peer)  # noqa
+            else:
+                ops.append(('delete_all', ns, a[0], die))
+                after.delete_all(ns)
+                call = lambda: store.delete_all()  # noqa
+            exc = None
+            died = False
+            real_replace = os.replace
+            if die:
+                def dying_replace(*args, **kw):
+                    if die == 'before-rename':
+                        raise _Die()
+                    real_replace(*args, **kw)
+                    raise _Die()
+                os.replace = dying_replace
+            try:
+                await call()
+            except _Die:
+                died = True
+            except Exception as e:
+                exc = e
+            finally:
+                os.replace = real_replace
+            r.ev('oracle_evals')
+            if exc is not None:
+                r.bad(f'paths/raised/{op}/{layout}/via-{a[0]}/{type(exc).__name__}', f'{op} raised {exc!r}; {ctx()}')
+                return None
+            opname = op
+            if die:
+                r.ev('oracle_evals')
+                if not died:
+                    # no rename at all: legitimate only if the file is complete anyhow, which verify() decides
+                    r.ev('paths_death_point_not_reached')
+                else:
+                    r.ev('paths_deaths')
+                    r.ev('paths_deaths_' + die)
+                    opname = f'{op}-died-{die}'
+                    # the dead process's store object is gone; a new process opens the same path
+                    live[k] = [open_store(ns, a), ns, a]
+            if not (died and die == 'before-rename'):
+                model = after
+            if not await verify(opname, a[0]):
+                return None
+        r.sig('paths', layout, tuple(map(str, ops)))
+        r.evals()
+        return {'layout': layout, 'access_paths': [a[0] for a in acc], 'namespaces': namespaces,
+                'ops': [list(map(str, o)) for o in ops[:10]]}
+    finally:
+        os.chdir(cwd0)
         shutil.rmtree(base, ignore_errors=True)
 
 
@@ -1366,6 +1642,8 @@ def plan(tier, seed):
         cases.append({'kind': 'history', 'seed': seed * 100003 + i, 'histories': 12 if quick else 25})
     for i in range(32 if quick else 200):
         cases.append({'kind': 'nscount', 'seed': seed * 100019 + i, 'histories': 16 if quick else 25})
+    for i in range(16 if quick else 96):
+        cases.append({'kind': 'paths', 'seed': seed * 100043 + i, 'rounds': 2 if quick else 4})
     total = len(roundtrip_combos())
     step = 126
     for lo in range(0, total, step):
@@ -1420,7 +1698,7 @@ def plan(tier, seed):
     for c in st:
         cases.append({'kind': 'strace', 'cfg': c})
     # long cases first so that the shards finish together
-    order = {'crash': 0, 'strace': 1, 'history': 2, 'nscount': 2, 'roundtrip': 3}
+    order = {'crash': 0, 'strace': 1, 'history': 2, 'nscount': 2, 'paths': 2, 'roundtrip': 3}
     cases.sort(key=lambda c: order[c['kind']])
     return cases
 
@@ -1432,6 +1710,14 @@ async def run_case(case, r):
         s = None
         for _ in range(case['histories']):
             s = await history(rng, r, profile='nscount' if kind == 'nscount' else 'random') or s
+        if s:
+            r.sample = {'kind': kind, **s}
+    elif kind == 'paths':
+        rng = random.Random(f'paths/{case["seed"]}')
+        s = None
+        for _ in range(case['rounds']):
+            for layout in PATH_LAYOUTS:
+                s = await paths_history(rng, r, layout) or s
         if s:
             r.sample = {'kind': kind, **s}
     elif kind == 'roundtrip':
